@@ -186,7 +186,7 @@ def run(chk):
             ca._internal_mods = {k: ca._internal_mods[k] for k in c['internal_order']}
         corpus.append((c['op'], annot.dump(ca, sort_internal=False), c['size']))
     # ------------------------------------------------------------------ correspondence: the four expansions
-    n_ann = 90 if tier == 'quick' else 200
+    n_ann = 90 if tier == 'quick' else 150
     anns = []
     for i in range(n_ann):
         # one case in ten carries intervals (outside the property's quantifier: they are popped and never come back;
